@@ -7,7 +7,7 @@
 EXTENDS Integers, Sequences, FiniteSets, TLC, Json, SequencesExt
 CONSTANT Devs
 Universe == 0..255
-V == INSTANCE Versions WITH mine <- <<0>>, theirs <- [k |-> "none", s |-> {}], cache <- 0, last <- 0, n <- 0
+V == INSTANCE Versions WITH mine <- [cur |-> <<0>>, cfg |-> <<0>>], theirs <- <<>>, cache <- <<>>, last <- [v |-> 0, want |-> 0], n <- 0
 Trace == ndJsonDeserialize("trace.ndjson")
 VARIABLES l, viol
 SetOf(s) == {s[i] : i \in 1..Len(s)}
